@@ -463,6 +463,7 @@ type pipeOpts struct {
 	cec, ren bool
 	hib      int    // Pipeline.HibernationDistance
 	pr       int    // bit 0: Pipeline.PrintActions, bit 1: Pipeline.DumpPlan
+	alt      int    // re-use cases: the variant of the history (see runIn.alt)
 	pd       int    // > 0: IdentityDetector.PeopleDict given from outside, knowing the developers 0 .. pd-2 (the others are AuthorMissing)
 	noPlan   bool   // skip the informational second planner call
 	scale    *shape // non-nil: the commits were generated from these segments (mode scale)
@@ -480,6 +481,18 @@ const (
 type leafSet struct {
 	devs *leaves.DevsAnalysis
 	cst  *leaves.CommitsAnalysis
+	// re-use of the whole Pipeline object (runIn.samep): the pipeline of the previous analysis and what it was made for
+	samep bool
+	prev  *pipeState
+}
+
+type pipeState struct {
+	p         *hercules.Pipeline
+	rec       *recorder
+	devs, cst hercules.LeafPipelineItem
+	repo      *git.Repository
+	commits   []*object.Commit
+	alt       int
 }
 
 // analysis is one Initialize + Run of a pipeline and what was observed.
@@ -494,6 +507,7 @@ type analysis struct {
 	cidx       map[plumbing.Hash]int
 	commits    []*object.Commit
 	first      string // the results as serialised when the run ended
+	samePipe   bool   // the Pipeline object of the previous analysis was used again
 }
 
 // results serialises the retained DevsResult and CommitsResult (again): (devs ...) (commits ...) (lhashes ...).
@@ -560,6 +574,9 @@ func (a *analysis) obs(late bool) []Sx {
 	if a.status == "failed" {
 		res = append(res, T("failed"))
 	}
+	if a.samePipe {
+		res = append(res, T("same-pipeline"))
+	}
 	res = append(res, a.pre...)
 	if a.haveRes {
 		res = append(res, a.results()...)
@@ -585,7 +602,17 @@ func analyse(c *Config, o pipeOpts, cs []commitIn, ls *leafSet, failAt int) *ana
 		a.status = "empty"
 		return a
 	}
-	repo, commits := synth.BuildRepo(specs)
+	var repo *git.Repository
+	var commits []*object.Commit
+	var same *pipeState
+	if ls != nil && ls.samep && ls.prev != nil && ls.prev.alt == o.alt && len(specs) <= len(ls.prev.commits) {
+		// the SAME Pipeline object again: its repository holds the commits (a prefix of what it analysed before)
+		same = ls.prev
+		a.samePipe = true
+		repo, commits = same.repo, same.commits[:len(specs)]
+	} else {
+		repo, commits = synth.BuildRepo(specs)
+	}
 	a.commits = commits
 	cidx := a.cidx
 	for i, cm := range commits {
@@ -595,15 +622,19 @@ func analyse(c *Config, o pipeOpts, cs []commitIn, ls *leafSet, failAt int) *ana
 	}
 	names, langs := a.names, a.langs
 	langs.id("")
+	reuse := ls != nil
 	if ls == nil {
-		ls = &leafSet{&leaves.DevsAnalysis{}, &leaves.CommitsAnalysis{}}
+		ls = &leafSet{devs: &leaves.DevsAnalysis{}, cst: &leaves.CommitsAnalysis{}}
 	}
-
 	rec := &recorder{sh: &recShared{failAt: failAt}}
+	if same != nil {
+		rec = same.rec
+		rec.sh.failAt = failAt
+	}
 	var itemNames []string
 	var runErr error
 	_, panicked := Catch(func() {
-		if o.pr != 0 || failAt >= 0 {
+		if o.pr != 0 || failAt >= 0 || reuse {
 			// the plan / the actions are printed to os.Stderr at call time, a failing run is logged to the os.Stderr the
 			// pipeline's logger saw when it was made; the harness prints nothing but the trace
 			if null, err := os.OpenFile(os.DevNull, os.O_WRONLY, 0); err == nil {
@@ -612,10 +643,17 @@ func analyse(c *Config, o pipeOpts, cs []commitIn, ls *leafSet, failAt int) *ana
 				defer func() { os.Stderr = saved; null.Close() }()
 			}
 		}
-		p := hercules.NewPipeline(repo)
-		devs := p.DeployItem(ls.devs).(hercules.LeafPipelineItem)
-		cst := p.DeployItem(ls.cst).(hercules.LeafPipelineItem)
-		p.DeployItem(rec)
+		var p *hercules.Pipeline
+		var devs, cst hercules.LeafPipelineItem
+		if same != nil {
+			p, devs, cst = same.p, same.devs, same.cst
+		} else {
+			p = hercules.NewPipeline(repo)
+			devs = p.DeployItem(ls.devs).(hercules.LeafPipelineItem)
+			cst = p.DeployItem(ls.cst).(hercules.LeafPipelineItem)
+			p.DeployItem(rec)
+			ls.prev = &pipeState{p: p, rec: rec, devs: devs, cst: cst, repo: repo, commits: commits, alt: o.alt}
+		}
 		facts := map[string]interface{}{
 			hercules.ConfigPipelineCommits:        commits,
 			leaves.ConfigDevsConsiderEmptyCommits: cec,
@@ -624,7 +662,7 @@ func analyse(c *Config, o pipeOpts, cs []commitIn, ls *leafSet, failAt int) *ana
 			// the command line default; without the fact the threshold stays 0 (everything big enough pairs up)
 			facts[api.ConfigRenameAnalysisSimilarityThreshold] = 80
 		}
-		if o.hib > 0 || c.N%2 == 0 {
+		if o.hib > 0 || c.N%2 == 0 || same != nil {
 			// distance 0 is also given explicitly in half of the cases (fact present / absent)
 			facts[factHibernationDistance] = o.hib
 		}
@@ -777,15 +815,22 @@ type runIn struct {
 	cec  bool // Devs.ConsiderEmptyCommits of this analysis
 	hib  int  // Pipeline.HibernationDistance of this analysis
 	fail int  // >= 0: the recording item fails at this step
+	// the Pipeline OBJECT of the previous analysis is used again (Initialize + Run once more) when it was made for the same
+	// variant and at least as many commits; otherwise a new pipeline is made as usual
+	samep bool
 }
 
-func (r runIn) sx() Sx { return T("r", I(r.cut), I(r.alt), B(r.cec), I(r.hib), I(r.fail)) }
+func (r runIn) sx() Sx { return T("r", I(r.cut), I(r.alt), B(r.cec), I(r.hib), I(r.fail), B(r.samep)) }
 
 func parseRuns(cs Sx) []runIn {
 	var rs []runIn
 	if f, ok := cs.Field("runs"); ok {
 		for _, r := range f.Args() {
-			rs = append(rs, runIn{r.List[1].Int(), r.List[2].Int(), r.List[3].Int() != 0, r.List[4].Int(), r.List[5].Int()})
+			ri := runIn{cut: r.List[1].Int(), alt: r.List[2].Int(), cec: r.List[3].Int() != 0, hib: r.List[4].Int(), fail: r.List[5].Int()}
+			if len(r.List) > 6 {
+				ri.samep = r.List[6].Int() != 0
+			}
+			rs = append(rs, ri)
 		}
 	}
 	return rs
@@ -811,7 +856,7 @@ func runReuse(c *Config, kind string, o pipeOpts, reuseCommits bool, runs []runI
 		}
 		head = append(head, T("items", items...))
 	}
-	ls := &leafSet{&leaves.DevsAnalysis{}, &leaves.CommitsAnalysis{}}
+	ls := &leafSet{devs: &leaves.DevsAnalysis{}, cst: &leaves.CommitsAnalysis{}}
 	var as []*analysis
 	var obs []Sx
 	for i, r := range runs {
@@ -826,8 +871,10 @@ func runReuse(c *Config, kind string, o pipeOpts, reuseCommits bool, runs []runI
 			}
 		}
 		ro := o
-		ro.cec, ro.hib, ro.noPlan = r.cec, r.hib, true
-		if !reuseCommits {
+		ro.cec, ro.hib, ro.noPlan, ro.alt = r.cec, r.hib, true, r.alt
+		// the Pipeline object again when it was made for the same variant and holds the commits
+		ls.samep = r.samep && ls.prev != nil && ls.prev.alt == r.alt && len(sub) > 0 && len(sub) <= len(ls.prev.commits)
+		if !reuseCommits && !ls.samep {
 			ls.cst = &leaves.CommitsAnalysis{}
 		}
 		a := analyse(c, ro, sub, ls, r.fail)
@@ -1656,6 +1703,9 @@ func drawRuns(c *Config, n int) (string, []runIn) {
 				r.alt = 1 + c.Rng.Intn(2)
 			}
 		}
+		if i > 0 && c.Rng.Intn(3) == 0 {
+			r.samep = true
+		}
 		if i < k-1 && c.Rng.Intn(6) == 0 {
 			// the error path: this analysis fails half way; the items are used again afterwards
 			r.fail = c.Rng.Intn(n + 1)
@@ -1729,10 +1779,11 @@ func reuseExhaustive(c *Config, n int) {
 					}
 					kind := fmt.Sprintf("reuse-exhaustive-%d", n)
 					if n <= 3 || bits%3 == 0 {
-						runReuse(c, kind, pipeOpts{ren: true}, rc, []runIn{{cec: cec, fail: -1}, {cec: cec, fail: -1}}, cs)
+						// the second analysis with a new pipeline / with the same Pipeline object
+						runReuse(c, kind, pipeOpts{ren: true}, rc, []runIn{{cec: cec, fail: -1}, {cec: cec, fail: -1, samep: bits%2 == 0}}, cs)
 					}
 					if n >= 2 && (n <= 3 || bits%3 != 0) {
-						runReuse(c, kind, pipeOpts{ren: true}, rc, []runIn{{cut: n - 1, cec: cec, fail: -1}, {cec: !cec, fail: -1}, {cec: cec, fail: -1}}, cs)
+						runReuse(c, kind, pipeOpts{ren: true}, rc, []runIn{{cut: n - 1, cec: cec, fail: -1}, {cec: !cec, fail: -1}, {cec: cec, fail: -1, samep: bits%4 < 2}}, cs)
 					}
 				}
 			}
@@ -1786,7 +1837,7 @@ func reuseCases(c *Config) {
 		sh   shape
 	}
 	cases := []sc{
-		{pipeOpts{ren: true}, false, []runIn{{cut: 1500, cec: true, hib: 1, fail: -1}, {fail: -1}, {cec: true, hib: 2, fail: -1}}, shape{au: 5, tk: 40, segs: segsOf("dia", 1100, 3)}},
+		{pipeOpts{ren: true}, false, []runIn{{cut: 1500, cec: true, hib: 1, fail: -1}, {fail: -1}, {cec: true, hib: 2, fail: -1, samep: true}}, shape{au: 5, tk: 40, segs: segsOf("dia", 1100, 3)}},
 		{pipeOpts{ren: true}, true, []runIn{{fail: 700, hib: 2}, {alt: 1, fail: -1}, {cec: true, fail: -1}}, shape{au: 3, tk: 17, segs: append(segsOf("octo", 60, 5), segsOf("comb", 150, 0)...)}},
 	}
 	if c.Thorough() {
